@@ -1,0 +1,15 @@
+//go:build verif
+
+// Verification hooks (build tag "verif"). Add-only.
+
+package exporter
+
+// VerifSetSeqNumber places the sequence counter so that the 2^32 wrap is reachable.
+func (ep *ExportingProcess) VerifSetSeqNumber(n uint32) {
+	ep.seqNumber = n
+}
+
+// VerifSeqNumber reads the sequence counter.
+func (ep *ExportingProcess) VerifSeqNumber() uint32 {
+	return ep.seqNumber
+}
